@@ -233,8 +233,10 @@ def validate_t1(groups_path, tcase, obs_paths, shards=8, timeout=3600, module="T
         raise Inconclusive("no observations")
     nsh = max(1, min(shards, total // min_chunk or 1))
     chunk = min(max_chunk, (total + nsh - 1) // nsh)
+    nbytes = 0
     for ln in src():
-        if cur is None or n >= chunk:
+        if cur is None or n >= chunk or nbytes > 24_000_000:       # TLC needs some 50-100 bytes of heap per byte of JSON
+            nbytes = 0
             if cur:
                 cur.close()
                 counts.append(n)
@@ -242,6 +244,7 @@ def validate_t1(groups_path, tcase, obs_paths, shards=8, timeout=3600, module="T
             cur, n = open(files[-1], "w"), 0
         cur.write(ln if ln.endswith("\n") else ln + "\n")
         n += 1
+        nbytes += len(ln)
     if cur:
         cur.close()
         counts.append(n)
@@ -249,8 +252,8 @@ def validate_t1(groups_path, tcase, obs_paths, shards=8, timeout=3600, module="T
 
     def one(path):
         return run_tlc(module, T1_CFG, {"groups.ndjson": ("path", groups_path), "tcase.json": ("text", tc), obsname: ("path", path)},
-                       workers=1, timeout=timeout, heap="3g")
-    results = parallel(one, files, workers=min(12, len(files)))
+                       workers=1, timeout=timeout, heap="4g")
+    results = parallel(one, files, workers=min(10, len(files)))
     div, n, states, trans = [], 0, 0, 0
     for r, cnt in zip(results, counts):
         done = None
